@@ -114,6 +114,14 @@ def m_parse(bytes_of):
     return h
 
 
+def m_into_iter(em, e, rt, rty, env, k):
+    """Vec<u8>::into_iter(): the iterator is the list of the elements still to come"""
+    noargs(e, "into_iter")
+    if rty != ("list", U8):
+        raise EmitError("into_iter on %r: only Vec<u8> is in the vocabulary" % (rty,))
+    return k(rt, ("iter", U8), env)
+
+
 def m_res_ok(em, e, rt, rty, env, k):
     noargs(e, "Result::ok")
     return k("(res_ok %s)" % rt, ("opt", rty[1]), env)
@@ -258,6 +266,11 @@ def vocab(gm, area):
             ("list", "all"): m_all,
             ("list", "collect"): m_collect,
             ("list", "pop_front"): shape("pop_front", "inout", [], ("opt", U8)),
+            # a Vec consumed through `v.into_iter()` + `it.next()` is the same queue: vec::IntoIter yields front
+            # to back and is fused (None for ever once exhausted), like pop_front on an empty deque
+            # (the iterator has a type of its own, ("iter", u8): `next` on a plain list stays an error)
+            ("list", "into_iter"): m_into_iter,
+            ("iter", "next"): shape("pop_front", "inout", [], ("opt", U8)),
             ("result", "ok"): m_res_ok,
             ("int", "is_ascii_hexdigit"): m_pure("(is_ascii_hexdigit %s)", BOOL, "u8::is_ascii_hexdigit"),
             ("Effects", "insert"): shape("fx_insert", "in", [("in", EFF)], EFF),
